@@ -204,9 +204,20 @@ def _check_one_curve(kind, prm, calc_N, calc_P, rc, n_knees):
     if _rel(above, ND) > 1e-9 * slope * 2 + 1e-9:
         viol.append((K + "/discontinuous-at-endurance-knee", {"N(P_D(1+e))": above, "N_D": ND, "parameters": prm}))
     # array evaluation = scalar evaluation
-    arrN = np.asarray(calc_N(np.array(p_fin + [PD, 0.5 * PD])), dtype=float)
-    arrP = np.asarray(calc_P(np.array(n_fin + [ND, 10 * ND])), dtype=float)
-    nev += 2
+    # ... on float64 arrays the CALLER keeps (a grid that is used again for the next curve): asked twice, the arrays are
+    # what they were and the second answer is the first
+    grid_p, grid_n = np.array(p_fin + [PD, 0.5 * PD], dtype=np.float64), np.array(n_fin + [ND, 10 * ND], dtype=np.float64)
+    keep_p, keep_n = grid_p.copy(), grid_n.copy()
+    arrN = np.asarray(calc_N(grid_p), dtype=float)
+    arrP = np.asarray(calc_P(grid_n), dtype=float)
+    arrN2 = np.asarray(calc_N(grid_p), dtype=float)
+    arrP2 = np.asarray(calc_P(grid_n), dtype=float)
+    nev += 4
+    if not (np.array_equal(grid_p, keep_p) and np.array_equal(grid_n, keep_n)):
+        viol.append((K + "/callers-argument-array-changed", {"P_grid_before": keep_p.tolist(), "P_grid_after": grid_p.tolist(),
+                                                             "N_grid_before": keep_n.tolist(), "N_grid_after": grid_n.tolist(), "parameters": prm}))
+    elif not (np.array_equal(arrN, arrN2) and np.array_equal(arrP, arrP2)):
+        viol.append((K + "/same-array-asked-twice-answers-differ", {"calc_N": [arrN.tolist(), arrN2.tolist()], "calc_P": [arrP.tolist(), arrP2.tolist()]}))
     if arrN.shape != (len(p_fin) + 2,) or any(_rel(x, y) > 1e-13 for x, y in zip(arrN, Np + [INF, INF])):
         viol.append((K + "/array-vs-scalar", {"what": "calc_N", "array": arrN.tolist(), "scalar": Np + [INF, INF]}))
     if arrP.shape != (len(n_fin) + 2,) or any(_rel(x, y) > 1e-13 for x, y in zip(arrP, Pn + [p_at_nd, p_at_10nd])):
@@ -657,6 +668,84 @@ def check_gamma_kept(case):
     return viol, n
 
 
+# kept ACCESSOR object: every sequence of questions up to depth 3 on one accessor obtained once from the caller's load
+# object, with the caller changing a load value in place in between.  Every answer is the formula value for the loads
+# the object holds at that moment.
+GH_OPS = ("max-uniform", "max-per-node", "gamma_L", "scaled-peak", "caller:raise-the-peak-in-place", "caller:lower-the-peak-in-place")
+GH_DEPTH = 3
+
+
+def check_gamma_history(case):
+    """case: {part: 'gamma-history', dist, seq (load object), ops (indices into GH_OPS)}"""
+    import pandas as pd
+    import pylife.strength.fkm_load_distribution  # noqa: F401
+    obj, _ = _load_obj(case["seq"])
+    obj = obj.astype(float)
+    dist = case["dist"]
+    pa, pl = 1e-5, 2.5
+    params = pd.Series({"P_A": pa, "P_L": pl, "s_L": 10.0, "LSD_s": 0.05})
+    acc_ = getattr(obj, {"normal": "fkm_safety_normal_from_stddev", "lognormal": "fkm_safety_lognormal_from_stddev", "blanket": "fkm_safety_blanket"}[dist])
+    frame = isinstance(obj, pd.DataFrame)
+
+    def content():
+        v = obj.iloc[:, 0] if frame else obj
+        per_node = v.abs().groupby("node_id", sort=False).max() if frame else None
+        return float(v.abs().max()), per_node
+
+    def gamma_exp(lmax):
+        return ref.gamma_L_normal(pa, pl, 10.0, lmax) if dist == "normal" else (ref.gamma_L_lognormal(pa, pl, 0.05) if dist == "lognormal" else ref.gamma_L_blanket(pl))
+    n = 0
+    for step, oi in enumerate(case["ops"]):
+        op = GH_OPS[oi]
+        lmax, per_node = content()
+        try:
+            if op.startswith("caller"):
+                pos = int(np.argmax(np.abs((obj.iloc[:, 0] if frame else obj).to_numpy())))
+                factor = 2.0 if "raise" in op else 0.25
+                if frame:
+                    obj.iloc[pos, 0] = obj.iloc[pos, 0] * factor
+                else:
+                    obj.iloc[pos] = obj.iloc[pos] * factor
+                continue
+            n += 1
+            if op == "max-uniform":
+                got, exp = float(acc_.maximum_absolute_load()), lmax
+                bad = got != exp
+            elif op == "max-per-node":
+                r = acc_.maximum_absolute_load(max_load_independently_for_nodes=True)
+                if frame:
+                    got, exp = np.asarray(r, dtype=float).reshape(-1).tolist(), per_node.to_numpy(dtype=float).tolist()
+                else:
+                    got, exp = float(r), lmax
+                bad = got != exp
+            elif op == "gamma_L":
+                got, exp = float(acc_.gamma_L(params)), gamma_exp(lmax)
+                bad = not abs(got - exp) <= 1e-12 * max(1.0, abs(exp))
+            else:
+                r = acc_.scaled_load_sequence(params)
+                got = float(np.abs((r.iloc[:, 0] if isinstance(r, pd.DataFrame) else r).to_numpy(dtype=float)).max())
+                exp = gamma_exp(lmax) * lmax
+                bad = not abs(got - exp) <= 1e-12 * max(1.0, abs(exp))
+        except Exception as e:
+            return [_raised(e, "gamma_L-kept-accessor-" + dist)], n
+        if bad:
+            return [("C09/gamma_L/%s/kept-accessor-object/%s-not-for-the-loads-it-holds-now" % (dist, op),
+                     {"step": step, "ops": [GH_OPS[i] for i in case["ops"]], "got": got, "expected": exp, "maximum_absolute_load_now": lmax})], n
+    return [], n
+
+
+def _gamma_history_cases():
+    out = []
+    for dist in ("normal", "lognormal", "blanket"):
+        for seq in ("series-pos", "frame-nodes"):
+            for d in range(1, GH_DEPTH + 1):
+                for ops in itertools.product(range(len(GH_OPS)), repeat=d):
+                    if GH_OPS[ops[-1]].startswith("caller"):
+                        continue
+                    out.append({"part": "gamma-history", "dist": dist, "seq": seq, "ops": list(ops)})
+    return out
+
+
 # =====================================================================================================
 def bounds(tier):
     fams = {}
@@ -680,6 +769,8 @@ def shards(tier):
     out += [("beta", block) for block in chunked(_beta_lattice(tier), 60)]
     out += [("gamma", _gamma_cases(tier))]
     out += [("gamma-kept", [{"part": "gamma-kept", "dist": d, "seq": q} for d in ("normal", "lognormal") for q in ("series-pos", "frame-nodes")])]
+    gh = _gamma_history_cases()
+    out += [("gamma-history", gh[i:i + 120]) for i in range(0, len(gh), 120)]
     out += _acc_shards(tier)
     return out
 
@@ -733,6 +824,18 @@ def run_shard(shard):
             if case["dist"] == "normal" and exp is not None and exp < 1.0:
                 acc.count("gamma_L_normal_below_one (formula has no clamp; value judged against the formula only)")
             acc.outcome(got)
+            for key, detail in viol:
+                acc.violation(key, case, detail)
+    elif kind == "gamma-history":
+        for case in shard[1]:
+            acc.cases += 1
+            if any(GH_OPS[i].startswith("caller") for i in case["ops"]):
+                acc.nontrivial += 1
+            viol, n = check_gamma_history(case)
+            acc.evaluations += n
+            acc.transitions += len(case["ops"])
+            acc.max_depth = max(acc.max_depth, len(case["ops"]))
+            acc.count("gamma_L_kept_accessor_histories")
             for key, detail in viol:
                 acc.violation(key, case, detail)
     elif kind == "gamma-kept":
@@ -795,6 +898,8 @@ def replay(case):
         return check_beta(case["P_A"])[0]
     if part == "gamma":
         return check_gamma(case)[0]
+    if part == "gamma-history":
+        return check_gamma_history(case)[0]
     if part == "gamma-kept":
         return check_gamma_kept(case)[0]
     if part == "acc":
